@@ -450,4 +450,4 @@ MANIFEST = {
             "Lean; ops with hand-written backward (GRU) are covered by the oracle only.",
 }
 
-MANIFEST_ADDENDUM = 'Oracle additions: where-masked pass-through ufuncs among the op families; tensors derived from one that holds a gradient (copy, deepcopy, astype, tensor(x), astensor, views): editing one gradient changes the other only if the tensors share memory.'
+MANIFEST_ADDENDUM = 'Oracle additions: where-masked pass-through ufuncs among the op families; tensors derived from one that holds a gradient (copy, deepcopy, astype, tensor(x), astensor, views): editing one gradient changes the other only if the tensors share memory. Round 6: updating in place the result of a function that returns new memory (flatten, copy, astype, repeat, roll, arithmetic, advanced indexing, ...) leaves the function`s input unchanged, tracked and inside no_autodiff, C- and F-ordered inputs.'
